@@ -62,6 +62,7 @@ type Op struct {
 	Cancel  int    `json:"cancel,omitempty"`   // 0 none; k>0: a cancel task exists, started in phase k-1.. (scenario specific)
 	SleepNs int64  `json:"sleep_ns,omitempty"` // handler takes this much fake time
 	GapNs   int64  `json:"gap_ns,omitempty"`   // sub: producer pause between values
+	Raw     string `json:"raw,omitempty"`      // C10: hostile frame / body text
 	Stall   bool   `json:"stall,omitempty"`    // sub: the consumer never reads
 	Consume int    `json:"consume,omitempty"`  // sub: stop reading after k values (0 = all)
 }
